@@ -19,11 +19,8 @@ Definition rdet (a : Mat.Matrix4x4 F) : F := cofZ 1 / Mat.Matrix4x4_Determinant 
 Definition scalar_mat (s : F) : Mat.Matrix4x4 F := mat_of (fun i j => s * delta i j).
 
 Ltac inv_setup a :=
-  mat_destruct a;
-  unfold Mat.Matrix4x4_Inverse, rdet;
-  match goal with |- context [cofZ 1 / ?d] => set (r := cofZ 1 / d) end;
-  unfold Mat.Matrix4x4_Multiply, Mat.Matrix4x4_Determinant, scalar_mat, adj_spec, mat_of, delta, sgn, minor, det3, skip, get;
-  cbn [Nat.eqb Nat.ltb Nat.leb Nat.even Nat.add]; cbv zeta; mat_cbn.
+  mat_destruct a; gen_full;
+  match goal with |- context [cofZ 1 / ?d] => set (r := cofZ 1 / d) end.
 
 Lemma inverse_l_ring a :
   Mat.Matrix4x4_Multiply (Mat.Matrix4x4_Inverse a) a = scalar_mat (rdet a * Mat.Matrix4x4_Determinant a).
@@ -54,7 +51,7 @@ Qed.
 
 Lemma scalar_one : scalar_mat c1 = Mat.Identity (F := F).
 Proof.
-  rewrite (identity_is_spec RC). unfold scalar_mat, id_spec, mat_of, delta. cbn [Nat.eqb]. apply mk_eq; ring.
+  rewrite (identity_is_spec RC). gen_full. apply mk_eq; ring.
 Qed.
 
 (* the inverse laws *)
